@@ -269,3 +269,32 @@ impl Var {
         Ok(())
     }
 }
+
+#[cfg(basic_lang_verif)]
+impl Var {
+    #[allow(clippy::type_complexity)]
+    pub fn verif_dump(&self) -> (Vec<(String, Val)>, Vec<(String, Vec<i16>)>, [u8; 26]) {
+        let mut vars: Vec<(String, Val)> = self
+            .vars
+            .iter()
+            .map(|(k, v)| (k.to_string(), v.clone()))
+            .collect();
+        vars.sort_by(|a, b| a.0.cmp(&b.0));
+        let mut dims: Vec<(String, Vec<i16>)> = self
+            .dims
+            .iter()
+            .map(|(k, v)| (k.to_string(), v.clone()))
+            .collect();
+        dims.sort();
+        let mut types = [0u8; 26];
+        for (i, t) in self.types.iter().enumerate() {
+            types[i] = match t {
+                VarType::Integer => b'%',
+                VarType::Single => b'!',
+                VarType::Double => b'#',
+                VarType::String => b'$',
+            };
+        }
+        (vars, dims, types)
+    }
+}
